@@ -755,7 +755,13 @@ class Interp:
             inner = node['c'][0]
             if inner.get('lv') or inner.get('xv'):
                 return self.lval(inner)
-            v = self.eval(inner)
+            core = inner
+            while core['k'] in ('CXXBindTemporaryExpr', 'ParenExpr', 'ExprWithCleanups') and len(core.get('c', [])) == 1:
+                core = core['c'][0]
+            if core['k'] in ('CallExpr', 'CXXMemberCallExpr', 'CXXOperatorCallExpr'):
+                v = self.do_call(core)  # a summary may hand back the storage itself (proxy-reference types)
+            else:
+                v = self.eval(inner)
             if isinstance(v, Cell):
                 return v
             c = Cell(v, None, 0, 'tmp')
